@@ -334,6 +334,67 @@ theorem kth_strdup_null_iff (n : Int) (k : Nat) (str : List UInt8) :
     (strdup (afterMallocs (setCountdown cinit n) k) str).2 = none ↔ (0 ≤ n ∧ n ≤ ((k + 1 : Nat) : Int)) := by
   rw [(strdup_null_iff _ _).1, kth_malloc_fails_iff]
 
+/-! ## `malloc_count`, realloc, free -/
+
+/-- **`cpputest_malloc_get_count()`** is the number of allocating calls since the last
+    `cpputest_malloc_count_reset()`: every malloc, strdup, strndup and every calloc whose product does
+    not overflow counts once, failing calls included; realloc, free and the control calls never. -/
+theorem malloc_count_is_number_of_allocating_calls : ∀ (ops : List COp) (c : CState),
+    (crun c ops).count = expectedCountFrom c.count ops
+  | [], _ => rfl
+  | op :: ops, c => by
+    have ih := malloc_count_is_number_of_allocating_calls ops (cstep c op)
+    have hs := cstep_count c op
+    simp only [crun, List.foldl_cons] at ih ⊢
+    rw [ih, hs]
+    cases op <;> simp [expectedCountFrom, COp.allocating]
+
+/-- a failing allocating call is counted exactly like a succeeding one -/
+theorem failing_call_is_counted (c : CState) : (mallocState c).count = c.count + 1 := by
+  simp [mallocState, countdown_count]
+
+/-- **realloc and free are outside the countdown**: they change neither the counter, nor
+    `malloc_count`, nor the current allocator — `cpputest_realloc` never consumes a tick and is never
+    the allocation that a countdown fails. -/
+theorem realloc_free_outside_countdown (c : CState) (e : Bool) :
+    cstep c (.realloc e) = c ∧ cstep c .free = c := ⟨rfl, rfl⟩
+
+/-- what realloc / free do while the null allocator is current (observation, not part of the
+    property: the statement lists malloc/strdup/strndup/calloc): a tracked block is refused with the
+    allocator-mismatch failure, `realloc(NULL, n)` crashes; otherwise both work -/
+theorem realloc_under_out_of_memory (c : CState) :
+    (c.cur = .null → reallocResult c true = .mismatch ∧ reallocResult c false = .crash ∧
+      freeResult c = .mismatch) ∧
+    (c.cur = .normal → ∀ e, reallocResult c e = .ok ∧ freeResult c = .ok) := by
+  constructor
+  · intro h; simp [reallocResult, freeResult, h]
+  · intro h e; simp [reallocResult, freeResult, h]
+
+/-! ## locations are compared by the content of the whole file string and the line -/
+
+/-- an allocation at another file name (another directory prefix is another name) or another line
+    neither advances the local index of a designation nor can be the designated one … -/
+theorem other_location_does_not_count (file file' : String) (line line' : Nat) (e : List Op)
+    (h : file' ≠ file ∨ line' ≠ line) :
+    allocsAt file line (e ++ [Op.alloc file' line']) = allocsAt file line e := by
+  have : Op.isAllocAt file line (Op.alloc file' line') = false := by
+    simp only [Op.isAllocAt, decide_eq_false_iff_not]
+    rintro ⟨rfl, rfl⟩
+    rcases h with h | h <;> exact h rfl
+  simp [allocsAt_append, allocsAt_cons, allocsAt_nil, this]
+
+/-- … while a location is only its content: the model has no notion of "which pointer", so a
+    designation made through one pointer selects the allocations reported through any other pointer
+    with equal content (the harness drives two pool copies of "a.c" and its own copy of the
+    overloads' "<unknown>"): right after `failNthAllocAt(1, file, line)` the next allocation at
+    `(file, line)` is designated, whatever happened before -/
+theorem designate_first_at_location (h : List Op) (file : String) (line : Nat) :
+    Designated (h ++ [Op.failAt 1 file line]) file line := by
+  right
+  have he : epoch (h ++ [Op.failAt 1 file line]) = epoch h ++ [Op.failAt 1 file line] := by
+    rw [epoch_snoc]; simp
+  exact ⟨epoch h, 1, [], by rw [he], by simp [allocsAt_nil]⟩
+
 /-! ## non-vacuity -/
 
 /-- the two old defects as histories: designating the 2nd allocation at foo.c:10 does not fail the
